@@ -1523,3 +1523,162 @@ func arrayConst(v ssa.Value) ([]int64, bool) {
 	}
 	return nil, false
 }
+
+// ---------------------------------------------------------------------------
+// pathEnv: the evaluator behind nearPaths, usable by other path enumerations: phis bound to the operand of the edge
+// the path came in by, conditions that became constant decided.
+
+type pathEnv struct {
+	res map[*ssa.Phi]ssa.Value
+}
+
+func newPathEnv() *pathEnv { return &pathEnv{res: map[*ssa.Phi]ssa.Value{}} }
+
+func (e *pathEnv) resolve(v ssa.Value) ssa.Value {
+	for i := 0; i < 8; i++ {
+		if phi, isPhi := unwrap(v).(*ssa.Phi); isPhi {
+			if r, known := e.res[phi]; known {
+				v = r
+				continue
+			}
+		}
+		return v
+	}
+	return v
+}
+
+// enter binds the phis of b for a path arriving from prev; the returned function undoes the binding.
+func (e *pathEnv) enter(b, prev *ssa.BasicBlock) func() {
+	var set []*ssa.Phi
+	old := map[*ssa.Phi]ssa.Value{}
+	if prev != nil {
+		idx := -1
+		for i, p := range b.Preds {
+			if p == prev {
+				idx = i
+			}
+		}
+		if idx >= 0 {
+			var vals []ssa.Value
+			for _, in := range b.Instrs {
+				phi, isPhi := in.(*ssa.Phi)
+				if !isPhi {
+					break
+				}
+				set = append(set, phi)
+				vals = append(vals, e.resolve(phi.Edges[idx]))
+			}
+			for i, phi := range set {
+				if o, had := e.res[phi]; had {
+					old[phi] = o
+				}
+				e.res[phi] = vals[i]
+			}
+		}
+	}
+	return func() {
+		for _, phi := range set {
+			if o, had := old[phi]; had {
+				e.res[phi] = o
+			} else {
+				delete(e.res, phi)
+			}
+		}
+	}
+}
+
+// take evaluates "cond is val" on the path: false if that is impossible; otherwise the facts it adds are appended.
+func (e *pathEnv) take(cond ssa.Value, val bool, cur *[]fact) bool {
+	switch x := cond.(type) {
+	case *ssa.UnOp:
+		if x.Op == token.NOT {
+			return e.take(x.X, !val, cur)
+		}
+	case *ssa.Phi:
+		if r, known := e.res[x]; known {
+			if k, isK := r.(*ssa.Const); isK && k.Value != nil {
+				return (k.Value.String() == "true") == val
+			}
+			return e.take(r, val, cur)
+		}
+	case *ssa.BinOp:
+		rx, ry := e.resolve(x.X), e.resolve(x.Y)
+		kx, okx := constInt(rx)
+		ky, oky := constInt(ry)
+		if okx && oky {
+			var t bool
+			switch x.Op {
+			case token.GTR:
+				t = kx > ky
+			case token.GEQ:
+				t = kx >= ky
+			case token.LSS:
+				t = kx < ky
+			case token.LEQ:
+				t = kx <= ky
+			case token.EQL:
+				t = kx == ky
+			case token.NEQ:
+				t = kx != ky
+			default:
+				*cur = append(*cur, fact{V: cond, Truth: val})
+				return true
+			}
+			return t == val
+		}
+		if rx != x.X {
+			*cur = append(*cur, fact{V: cond, Truth: val, X: rx})
+			return true
+		}
+	}
+	condImplies(cond, val, 0, cur)
+	return true
+}
+
+// loopIterationPaths enumerates the ways through one iteration of a natural loop whose body has no inner cycle: from
+// the body entry back to the header, not entering a block of stop. Each path is the list of facts of the branch
+// outcomes taken (phis resolved along the path, impossible outcomes pruned). ok=false if the body has an inner cycle
+// or more than max paths.
+func loopIterationPaths(header, entry *ssa.BasicBlock, body, stop map[*ssa.BasicBlock]bool, max int) (paths [][]fact, ok bool) {
+	ok = true
+	env := newPathEnv()
+	onPath := map[*ssa.BasicBlock]bool{}
+	var walk func(b, prev *ssa.BasicBlock, cur []fact)
+	walk = func(b, prev *ssa.BasicBlock, cur []fact) {
+		if !ok {
+			return
+		}
+		if b == header {
+			if len(paths) >= max {
+				ok = false
+				return
+			}
+			paths = append(paths, append([]fact{}, cur...))
+			return
+		}
+		if !body[b] || stop[b] {
+			return // leaves the loop, or reaches the sink
+		}
+		if onPath[b] {
+			ok = false // an inner cycle
+			return
+		}
+		onPath[b] = true
+		undo := env.enter(b, prev)
+		defer func() { undo(); onPath[b] = false }()
+		iff, isIf := b.Instrs[len(b.Instrs)-1].(*ssa.If)
+		for i, s := range b.Succs {
+			n := len(cur)
+			feasible := true
+			if isIf && len(b.Succs) == 2 && b.Succs[0] != b.Succs[1] {
+				feasible = env.take(iff.Cond, i == 0, &cur)
+			}
+			if feasible {
+				walk(s, b, cur)
+			}
+			cur = cur[:n]
+		}
+	}
+	walk(entry, header, nil)
+	return paths, ok
+}
